@@ -384,6 +384,10 @@ def replay_plan(ob):
     if (lab.startswith('C05/stream-frames/') or t == 'Frame::from_buffer(complete frame)') and 'frame_bytes' in inp:
         case = {'driver': 'stream_read', 'args': {'stream': _hx(inp['frame_bytes']), 'chunks': [], 'reads': 1}}
         return 'frames', case, panicked
+    if lab.startswith('C12/stream-frames/'):
+        # the segmentation found by the solver is not replayed literally: the native driver delivers two glued frames
+        # whole, at every 2-piece cut and byte by byte and compares the decoded frames (any difference confirms)
+        return 'frames', {'driver': 'stream_battery', 'args': {}}, lambda o: bool(o.get('mismatch')) or bool(o.get('panicked'))
     if t == 'StreamFrameReader::read' and 'stream' in inp:
         st_ = bytes.fromhex(_hx(inp['stream']))[inp.get('frame_start', 0):]
         if isinstance(inp.get('failing_frame'), dict):
